@@ -15,7 +15,13 @@ RULE = ("cases = (version, log_e_nu, beta, u) through the real grid_cdf_sampler(
         "non-trivial when (version, le, beta, u) is distinct and the sampler returned an interpolated value")
 ASSUMPTIONS = ["scipy interpn (linear) is modelled by Model.Interp.bilinearRow; the correspondence is what checks that",
                "u is taken strictly inside the interpolated row's CDF range, as the property quantifies; u outside is only checked to agree with the model's 'misaligned' verdict"]
-regen = regen_tables
+
+
+def regen():
+    """the tables (Gen/Tab*.lean) and the source tie: Gen/Src/C04.lean is `Taus.tau_energy` and the chunk body of
+    `grid_cdf_sampler(grid)` as the working tree has them now"""
+    import srctie
+    return {**regen_tables(), **srctie.regen("C04")}
 
 
 def F_of(row, frac, z):
@@ -74,6 +80,8 @@ def check_sampler(ctx, v, tau, le, b, u, stream):
         elif not (frac[0] <= z[i] <= 1.0):
             ctx.violation("grid_cdf_sampler", "z-out-of-range", "fraction outside the tabulated range", case)
     ctx.count(f"sampler_{stream}", len(u))
+    import tautie
+    tautie.compare_chunk(ctx, g, le, b, u, z)   # source tie: the translated chunk body next to the real sampler
     return z
 
 
@@ -178,6 +186,8 @@ def run(ctx: Ctx):
                           f"explicit random numbers with a mix of in-range and out-of-range angles raise {type(e).__name__}: {str(e)[:100]}", case0)
             E = None
         if E is not None:
+            import tautie
+            tautie.compare_tau_energy(ctx, tau, bw, lew, uw, E)   # source tie: the translated wrapper next to the real one
             out = run_driver_sharded([f"tauenergy {v} {f2h(bw[i])} {f2h(lew[i])} {f2h(uw[i])}" for i in range(m)])
             for i, o in enumerate(out):
                 case = {"version": v, "beta": float(bw[i]), "log_e_nu": float(lew[i]), "u": float(uw[i]), "E_tau": float(E[i])}
@@ -209,6 +219,12 @@ def run(ctx: Ctx):
             u_exp[valid] = draw(int(valid.sum())); u_exp[low] = draw(int(low.sum()))
             E_exp = tau.tau_energy(bw.copy(), lew.copy(), u_exp)
             ctx.case(("explicit-vs-internal", v, seed), {"op": "explicit==internal", "version": v, "seed": seed, "n": m})
+            # source tie of the path u=None: one chunk of the sampler with its own draw, replayed from the same generator state
+            nd = 300
+            np.random.seed(seed)
+            z_int = grid_cdf_sampler(g)(lew[:nd].copy(), np.clip(bw[:nd], bmin, bmax))
+            np.random.seed(seed)
+            tautie.compare_chunk(ctx, g, lew[:nd], np.clip(bw[:nd], bmin, bmax), np.random.uniform(0.0, 1.0, size=nd), z_int, name="sampleChunkDraw")
             if not np.array_equal(E_int, E_exp):
                 i = int(np.nonzero(E_int != E_exp)[0][0])
                 ctx.violation("Taus.tau_energy", "explicit!=internal", "explicit random numbers give a different value than the internal generator for the same numbers",
